@@ -821,6 +821,9 @@ def parse_range_header(
                 begin = _plain_int(item)
             except ValueError:
                 return None
+            if begin >= 0:
+                # "-0", a suffix of zero bytes, is not satisfiable.
+                return None
             end = None
             last_end = -1
         elif "-" in item:
